@@ -18,7 +18,9 @@
 // enumerations of label strings and DHCPv4 / DHCPv6 option areas and (b)
 // adversarial families on full parameter grids, instantiated at ascending
 // sizes up to the maximum UDP payload; a family instance stops at its first
-// violation. Every measurement runs in a subprocess under an address-space
+// violation; (c) the periodic extension of the small scope (periodic.go): every
+// string of length 1..4 (labels) / 1..3 (names inside options, option areas)
+// over the small-scope alphabets, repeated to fill the input, with five tails. Every measurement runs in a subprocess under an address-space
 // limit and a hard timeout; a worker that is killed by either is a violation
 // of the family it was measuring (clause "budget-exceeded").
 package c09
